@@ -471,3 +471,156 @@ Definition run_native_c (c : cfmt) (pd : list Z) : val :=
   let raws_lz := sequence (map (fun f => get_raw_frame true m pd f false) nums) in
   VL [VS (dtype_name (f_bits m) (f_signed m)); vframes one; VB (res_eqb lz one); VB (res_eqb cached one);
       VB (res_eqb (whole_array_c c pd) one); vframes raws; VB (res_eqb raws_lz raws)].
+
+(* ================================================================== *)
+(* encapsulated pixel data, BYTE level: fragments carry their payload  *)
+(* ================================================================== *)
+(* io._build_bot reads the first two bytes of every fragment and compares them with the
+   JPEG / JPEG-LS start-of-image marker FF D8 and the JPEG 2000 start-of-codestream marker FF 4F *)
+Definition starts_marker (p : list Z) : bool :=
+  match p with
+  | a :: b :: _ => (a =? 255) && ((b =? 216) || (b =? 79))
+  | _ => false
+  end.
+Definition item_of (p : list Z) : item := Item (zlen p) (starts_marker p).
+
+(* read_frame_raw: b''.join(fragments) *)
+Definition join_span (pls : list (list Z)) (r : Z * Z) : list Z :=
+  concat (zfirstn (snd r) (zskipn (fst r) pls)).
+
+(* ImageFileReader on an encapsulated file whose fragments have payloads pls: open
+   (_read_metadata: choice of table), then read_frame_raw(i) *)
+Definition reader_enc_bytes (eot : option (list Z)) (bot : list Z) (pls : list (list Z)) (n i : Z)
+  : res (list Z) :=
+  bind (offset_table eot bot (map item_of pls) n) (fun t =>
+    rmap (join_span pls) (read_frame_raw_enc t (map item_of pls) n i)).
+
+(* Image.get_raw_frame on the lazily read file: frame number convention first, then the reader *)
+Definition lazy_raw_enc_bytes (eot : option (list Z)) (bot : list Z) (pls : list (list Z)) (n f : Z)
+           (ai : bool) : res (list Z) :=
+  bind (offset_table eot bot (map item_of pls) n) (fun t =>
+    bind (std_index n f ai) (fun i =>
+      rmap (join_span pls) (read_frame_raw_enc t (map item_of pls) n i))).
+
+(* observation: Err if opening fails, else per requested index the returned bytes or the error;
+   second component: the same requests through hd.imread(lazy) .get_raw_frame(i, as_index) *)
+Definition run_encaps_bytes (eot : option (list Z)) (bot : list Z) (pls : list (list Z)) (n : Z)
+           (idx : list Z) : val :=
+  match offset_table eot bot (map item_of pls) n with
+  | Err k => VErr k
+  | Ok _ => VL (map (fun i => vres vz_list (reader_enc_bytes eot bot pls n i)) idx)
+  end.
+Definition run_encaps_image (eot : option (list Z)) (bot : list Z) (pls : list (list Z)) (n : Z)
+           (idx : list Z) (ai : bool) : val :=
+  match offset_table eot bot (map item_of pls) n with
+  | Err k => VErr k
+  | Ok _ => VL (map (fun f => vres vz_list (lazy_raw_enc_bytes eot bot pls n f ai)) idx)
+  end.
+
+(* ================================================================== *)
+(* native pixel data inside the FILE: element header, value, what follows *)
+(* ================================================================== *)
+(* io._read_metadata: _first_frame_offset = _pixel_data_offset + header_offset, where the header
+   of the Pixel Data element is tag + length (implicit VR) or tag + VR + reserved + length *)
+Definition native_header (implicit_vr : bool) : Z := if implicit_vr then 4 + 4 else 4 + 2 + 2 + 4.
+
+(* read_frame_raw on the bytes of the file from the first byte of the Pixel Data element on:
+   fp.seek(first_frame_offset + offset_table[i]); fp.read(n_bytes) *)
+Definition read_frame_raw_file (implicit_vr : bool) (bits npx n : Z) (tail : list Z) (i : Z)
+  : res (list Z) :=
+  if (i <? 0) || (i >=? n) then Err "ValueError"
+  else match py_nth (map (lazy_offset bits npx) (zrange n)) i with
+       | None => Err "IndexError"
+       | Some off =>
+           let s := native_header implicit_vr + off in
+           let d := pyslice s (s + lazy_nbytes bits npx i) tail in
+           match d with [] => Err "OSError" | _ => Ok d end
+       end.
+
+Definition run_reader_file (implicit_vr : bool) (bits npx n : Z) (tail : list Z) (idx : list Z) : val :=
+  VL (map (fun i => vres vz_list (read_frame_raw_file implicit_vr bits npx n tail i)) idx).
+
+(* ================================================================== *)
+(* lazily read image: Image.from_file(..., lazy_frame_retrieval=True)  *)
+(* ================================================================== *)
+(* l_c  : the pixel description of the dataset as it is now (the reader's metadata is the same object)
+   l_pd : the PixelData value in the file (never changes)
+   l_cache = Some (c0, fs): Image.pixel_array stored in self._pixel_array the frames fs that it
+   decoded when the description was c0 (dtype and shape of the array are those of c0).  The lazy
+   branch of Image.pixel_array returns self._pixel_array as it is: nothing validates or drops it
+   (pydicom's _pixel_id check is only reached on the first call, and only through the
+   AttributeError fallback of Dataset.__getattr__).
+   Faithful for edits that keep NumberOfFrames, BitsAllocated and the frame size (the offset
+   table of the reader is computed once when the file is opened). *)
+Record limg := LImg { l_c : cfmt; l_pd : list Z; l_cache : option (cfmt * list (list Z)) }.
+
+Inductive lop :=
+| LWhole | LOne (f : Z) (ai : bool) | LBatch (fs : list Z) (ai : bool)
+| LRaw (f : Z) (ai : bool) | LDecodeRaw (f : Z) (ai : bool) | LHeader (c : cfmt).
+
+(* get_stored_frame: answers (description that fixes dtype / shape, values) *)
+Definition lz_one (st : limg) (f : Z) (ai : bool) : res (cfmt * list Z) :=
+  let c := l_c st in
+  bind (std_index (f_frames (c_fmt c)) f ai) (fun i =>
+    match l_cache st with
+    | None => rmap (pair c) (frame_lazy_c c (l_pd st) i)             (* read_frame_raw + decode_frame *)
+    | Some (c0, fs) =>
+        if f_frames (c_fmt c) =? 1 then Ok (c0, nth 0 fs [])         (* frame = self.pixel_array *)
+        else match nth_error fs (Z.to_nat i) with                    (* self.pixel_array[frame_index] *)
+             | Some a => Ok (c0, a)
+             | None => Err "IndexError"
+             end
+    end).
+
+Fixpoint lz_batch_loop (st : limg) (fs : list Z) (ai : bool) : res (list (cfmt * list Z)) :=
+  match fs with
+  | [] => Ok []
+  | f :: r => bind (lz_one st f ai) (fun a => rmap (cons a) (lz_batch_loop st r ai))
+  end.
+(* np.stack: all frames of one call come from the same source, so they share dtype and shape *)
+Definition lz_batch (st : limg) (fs : list Z) (ai : bool) : res (cfmt * list (list Z)) :=
+  bind (lz_batch_loop st fs ai) (fun l =>
+    match l with
+    | [] => Err "ValueError"
+    | (c0, _) :: _ => Ok (c0, map snd l)
+    end).
+
+Definition lz_whole (st : limg) : limg * res (cfmt * list (list Z)) :=
+  match l_cache st with
+  | Some (c0, fs) => (st, Ok (c0, fs))
+  | None =>
+      let n := f_frames (c_fmt (l_c st)) in
+      let r := if n =? 1 then rmap (fun p => (fst p, [snd p])) (lz_one st 1 false)
+               else lz_batch st (map (fun k => k + 1) (zrange n)) false in
+      match r with
+      | Ok a => (LImg (l_c st) (l_pd st) (Some a), Ok a)
+      | Err k => (st, Err k)
+      end
+  end.
+
+Definition lz_decode_raw (st : limg) (f : Z) (ai : bool) : res (list Z) :=
+  let m := c_fmt (l_c st) in
+  bind (std_index (f_frames m) f ai) (fun i =>
+    bind (get_raw_frame true m (l_pd st) f ai) (fun raw => decode_native_c (l_c st) i raw)).
+
+Definition vans2 {A} (g : A -> val) (r : res (cfmt * A)) : val :=
+  match r with Ok (c0, a) => VL [meta c0; g a] | Err k => VErr k end.
+
+Definition lstep (st : limg) (o : lop) : limg * val :=
+  match o with
+  | LWhole => let p := lz_whole st in (fst p, vans2 vz_list2 (snd p))
+  | LOne f ai => (st, vans2 vz_list (lz_one st f ai))
+  | LBatch fs ai => (st, vans2 vz_list2 (lz_batch st fs ai))
+  | LRaw f ai => (st, vres vz_list (get_raw_frame true (c_fmt (l_c st)) (l_pd st) f ai))
+  | LDecodeRaw f ai => (st, vans (l_c st) vz_list (lz_decode_raw st f ai))
+  | LHeader c' => (LImg c' (l_pd st) (l_cache st), VNone)
+  end.
+
+Fixpoint lrun_ops (st : limg) (ops : list lop) : list val :=
+  match ops with
+  | [] => []
+  | o :: r => let p := lstep st o in snd p :: lrun_ops (fst p) r
+  end.
+
+Definition run_lazy_history (c : cfmt) (pd : list Z) (ops : list lop) : val :=
+  VL (lrun_ops (LImg c pd None) ops).
